@@ -50,6 +50,11 @@ def run(ctx):
     c["v"] = c["v"] - 1
     rs = ctx.harness(["c15", "replay", ctx.write_ndjson("dist_self.ndjson", [c])])[-1]
     ctx.selftest("replay: expected Rosenbrock value off by one", len(rs["bad"]) > 0)
+    # binding of the stream replay: a history whose last seeded draw is annotated with the wrong position must be reported
+    h = json.loads(json.dumps(next(c for c in streams if c["hist"][-1]["op"] == "draw" and c["hist"][-1]["seed"] != "os")))
+    h["hist"][-1]["pos"] += 1
+    rs = ctx.harness(["c15", "replay", ctx.write_ndjson("stream_self.ndjson", [h])])[-1]
+    ctx.selftest("replay: seeded draw annotated with the wrong stream position", len(rs["bad"]) > 0)
     ctx.cov["rule"] = ("every lattice case of MC_Dist (covariances incl. condition numbers ~1e4, means, points, dyadic scalings 2^-10..2^13, "
                        "isotropic dims 1..32 with std 2^-9..2^9, Rosenbrock 2-D/N-D; every history of <= 5 (thorough 7) draw / set_seed / clone operations on "
                        "the proposal, PropStream.tla) x every public evaluation path (ndarray f32/f64, "
